@@ -848,7 +848,15 @@ def _r1_verbatim(run, fs):
     """Every character of the input that reaches the output without passing
     through the per-character table belongs to the allowed alphabet of the
     configuration; '%' is passed through only where the whole string was
-    accepted by the already-escaped heuristic (R5 decides what that accepts).
+    accepted by the already-escaped heuristic (R5 decides what that accepts),
+    i.e. where on the path the input is known to consist of allowed
+    characters and '%' only.  "Without passing through the table" covers the
+    input returned as it is, verbatim slices, and a second char table whose
+    alphabet is wider than the one of the configuration (what it lets
+    through is verbatim output).  Witness of the last: with a table over
+    allowed + '%' used whenever every %XX is well formed,
+    encode_check_escaped('/report 100%20done') == '/report%20100%20done',
+    which decodes to '/report 100 done'.
     Decided per configuration on the path facts of the nested encoder."""
     p = run.project
     f0 = fs[(False, False)]
@@ -879,12 +887,19 @@ def _r1_verbatim(run, fs):
                     what = ('the already-escaped shortcut applies exactly to strings over the allowed characters plus %% '
                             '(is_value=%s)' % is_value)
                 else:
-                    ok = S <= target
+                    # a '%' may stay as it is only where the WHOLE input was accepted as already escaped, i.e. consists of
+                    # allowed characters and (well-formed, R5) escapes only: where some other character needed encoding, a
+                    # literal '%' must be encoded as well, or decode(output) is not the input
+                    ok = S <= target and chars <= target
                     what = what_plain
                 if not ok:
                     _unread(n, unread_bound)
-                return run.check(ok, what, enc, construct, where=where, witness=['alphabet: %r' % _show(S), 'wanted: %r' % _show(target)],
-                                 runtime_witness="%s('%%20 x')" % sample)
+                return run.check(ok, what, enc, construct, where=where,
+                                 witness=['alphabet: %r' % _show(S), 'wanted: %r' % _show(target)] + (
+                                     ['on this path the input may also contain %r ...: it was not accepted as a whole'
+                                      % ''.join(sorted(chars - target, key=lambda c: (not (c.isprintable() and c.isascii()), c)))[:8]]
+                                     if not whole and S <= target else []),
+                                 runtime_witness=rw if (rw and not whole and S <= target) else "%s('%%20 x')" % sample)
             _unread(n, unread_bound)
             run.fail(what_plain, enc, construct, where=where, witness=wit, runtime_witness=rw)
             return False
@@ -912,6 +927,20 @@ def _r1_verbatim(run, fs):
             for part in parts:
                 if part[0] == 'whole':
                     raise UnknownIdiom('%s: return %s' % (enc.qual, short(n.ast.value, 80)))
+                if part[0] == 'enc' and part[3] != fa.table_var:
+                    # a second char table with a wider alphabet: what it lets through beyond the table of the
+                    # configuration reaches the output verbatim.  Witness (is_value=False, check_is_escaped=True, table
+                    # over allowed + '%'): encoder('/report 100%20done') == '/report%20100%20done', which decodes to
+                    # '/report 100 done'.
+                    wide = frozenset(fa.tables[part[3]][1])
+                    good = verdict(n, chars & wide, False,
+                                   "what a char table lets through unescaped beyond the allowed characters is verbatim output: a '%%' "
+                                   "stays as it is only where the whole string was accepted as already escaped - where some other "
+                                   "character needed encoding, '%%' is encoded too (table %s, %s)" % (part[3], tag), n.ast,
+                                   rw="%s('/report 100%%20done') == '/report%%20100%%20done', which decodes to '/report 100 done'" % sample
+                                   if '%' in wide else "%s passes %r through" % (sample, _show(wide - allowed)[:8]))
+                    bad = bad or not good
+                    continue
                 if part[0] != 'raw':
                     continue
                 sl = part[1].slice
@@ -984,10 +1013,15 @@ def r2_escape_shape(run):
     fs = _factories(run)
     hexmap = _hex_to_byte(run)
     ce = p.func(URI + '._create_char_encoder')
+    from types import SimpleNamespace
+    rounds = []
     for is_value in (False, True):
-        fa = fs[(is_value, False)]
+        fa0 = fs[(is_value, False)]
+        for tvar in [fa0.table_var] + sorted(set(fa0.tables) - {fa0.table_var}):     # every char table of the closure
+            rounds.append((is_value, tvar, SimpleNamespace(table=fa0.tables[tvar][0], allowed=fa0.tables[tvar][1])))
+    for is_value, tvar, fa in rounds:
+        tag = 'is_value=%s' % is_value if tvar == fs[(is_value, False)].table_var else 'is_value=%s, table %s' % (is_value, tvar)
         t = fa.table
-        tag = 'is_value=%s' % is_value
         run.check(set(t) == set(range(256)), 'the char encoder maps every byte value 0..255 (%s)' % tag, ce, 'table keys (%s)' % tag,
                   witness=['missing: %s' % sorted(set(range(256)) - set(t))[:8]], runtime_witness='KeyError while encoding')
         bad_id = [i for i in range(256) if i in t and chr(i) in fa.allowed and t[i] != chr(i)]
@@ -1539,8 +1573,8 @@ def r4_decoder_paths(run):
                          witness=['only the tokens %s are handed to the joiner' % short(v.args[0], 60)],
                          runtime_witness=R4_ALL_TOKENS_RW)
                 continue
-            if not (isinstance(v, ast.Call) and isinstance(v.func, ast.Name) and len(v.args) == 1 and isinstance(v.args[0], ast.Name)
-                    and v.args[0].id == toks and not v.keywords):
+            if not (isinstance(v, ast.Call) and isinstance(v.func, ast.Name) and len(v.args) == 1
+                    and _token_window(p, dec, v.args[0], toks) == 'all' and not v.keywords):
                 raise UnknownIdiom('decode(): return %s' % short(v, 80))
             cands = _callee_candidates(p, dec, v.func)
             if not cands:
@@ -1926,6 +1960,16 @@ def _slice_class_tests(run, fa, enc: Func, cfg, is_check) -> bool:
     return fired
 
 
+def _keeps_percent(fa, enc: Func, up: str, v) -> bool:
+    """The returned value maps the input through a char table that lets '%' through (a return that
+    leaves existing escapes alone without being `return <input>`)."""
+    try:
+        parts = _return_parts(enc, up, tuple(fa.tables), v)
+    except UnknownIdiom:
+        return False
+    return any(k[0] == 'enc' and '%' in fa.tables[k[3]][1] for k in parts)
+
+
 def r5_check_escaped(run):
     p = run.project
     fs = _factories(run)
@@ -1982,6 +2026,8 @@ def r5_check_escaped(run):
                 verdict, tn = _guard_verdict(cfg, n.id, is_check, True)
                 if verdict == 'proved':
                     accept.append(n)
+            elif _keeps_percent(fa, enc, up, v) and _guard_verdict(cfg, n.id, is_check, True)[0] == 'proved':
+                accept.append(n)     # existing escapes are left alone here, too
             else:
                 encoded.append(n)
     if not accept:
@@ -2309,6 +2355,6 @@ def check(run):
              'through the char table (whole input, stripped tail) is over the allowed alphabet, % only after the already-escaped check accepted', floor=14)
     run.rule('R2', _safe(r2_escape_shape), "escape shape %XX upper-case over UTF-8 bytes; _HEX_TO_BYTE complete and inverse", floor=10)
     run.rule('R3', _safe(r3_bindings), 'public encoder bindings and their users', floor=12)
-    run.rule('R4', _safe(r4_decoder_paths), 'the three decoder paths share one skeleton; plus handling; shortcut', floor=20)
+    run.rule('R4', _safe(r4_decoder_paths), 'the three decoder paths share one skeleton; plus handling; shortcut; the tokenisation at % is unbounded', floor=20)
     run.rule('R5', _safe(r5_check_escaped), 'check-escaped loop: for/else acceptance, hex digits, fall-through; no character-class test on a possibly empty slice', floor=8)
     run.rule('R6', _safe(r6_parse_host), 'parse_host return shapes; brackets stripped on every path where host.startswith("[") is not excluded, and only there', floor=8)
